@@ -81,7 +81,8 @@ class C19(Harness):
         import numpy as np
 
         n = 6
-        df = pd.DataFrame({"dim_0": [float(1 + i + 10 * seed) for i in range(n)], "target": [float(3 * i + seed) for i in range(n)]})
+        # (the second dataset has an integer-typed target: predictions are fractional, the stored / re-read records must stay so)
+        df = pd.DataFrame({"dim_0": [float(1 + i + 10 * seed) for i in range(n)], "target": [(3 * i + seed) if seed == 1 else float(3 * i + seed) for i in range(n)]})
         if presplit == "interleaved":  # the pre-split labels need not form two blocks
             df.index = ["test", "train", "train", "test", "train", "train"]
         elif presplit:
@@ -221,7 +222,7 @@ class C19(Harness):
             warnings.simplefilter("ignore")
             results = res.HDDResults(path)
         dsets = [data.RAMDataset(self._data(W, seed=0), "dsA"), data.RAMDataset(self._data(W, seed=1), "dsB")]
-        strategies = [strat.TSRStrategy(est.CountingRegressor(slope=2.0), name="s1"), strat.TSRStrategy(est.CountingRegressor(slope=3.0), name="s2")]
+        strategies = [strat.TSRStrategy(est.CountingRegressor(slope=2.0), name="s1"), strat.TSRStrategy(est.CountingRegressor(slope=2.5), name="s2")]
         o = orch.Orchestrator([tasks.TSRTask(target="target"), tasks.TSRTask(target="target")], dsets, strategies, self._mk(W, "kfold"), results)
         est.STATE.update(n=0, K=K, fits=0, predicts=0, log=[])
         crashed = False
@@ -455,8 +456,8 @@ class C19(Harness):
             for sname, dname, idx, yp in ref_loaded:
                 seed = 0 if dname == "dsA" else 1
                 xs = [float(1 + i + 10 * seed) for i in range(6)]
-                slope = 2.0 if sname == "s1" else 3.0
-                P.check("stored-record-is-honest", idx == [0, 1, 2] and yp == [slope * xs[i] + 3 + 100 * xs[3] for i in idx])
+                slope = 2.0 if sname == "s1" else 2.5
+                P.check("stored-record-is-honest", idx == [0, 1, 2] and yp == [slope * xs[i] + 3 + 100 * xs[3] for i in idx], {"strategy": sname, "dataset": dname, "y_pred": yp})
 
     def signature(self, label, inp, cell, detail=None):
         return "%s/%s" % (cell["kind"], label)
